@@ -97,7 +97,7 @@ func main() {
 			chains = append(chains, chain{states[3], "bytes2", s, 16})
 		}
 	}
-	deadline := time.Now().Add(time.Duration(run.Pick(80, 780)) * time.Second)
+	deadline := time.Now().Add(time.Duration(run.Pick(420, 780)) * time.Second) // quick: a safety net, the chains finish in about a minute on an idle machine
 	var mu sync.Mutex
 	total, rejected, accepted, contained, executions, deaths, unfinished := 0, 0, 0, 0, 0, 0, 0
 	classes := core.NewCounter()
